@@ -18,6 +18,9 @@ type s3hGen struct {
 	mode string
 	nput int
 	mpus []s3hUp // uploads created so far (ordinal = index)
+	// withPartCopy enables "op uppc" (UploadPartCopy) lines; only harnesses whose driver parses them
+	// (S3Driver.parseXOp) switch it on, so other users of this generator see the same op alphabet as before.
+	withPartCopy bool
 }
 
 type s3hUp struct {
@@ -30,7 +33,19 @@ var s3hKeys = []string{"k0", "k1", "dir/k2"}
 
 func (g *s3hGen) body() []byte {
 	r := g.r
-	switch r.Intn(8) {
+	n := 8
+	if g.withPartCopy { // the s3h harness itself: also bodies above the compression threshold
+		n = 10
+	}
+	switch r.Intn(n) {
+	case 8:
+		// compressible, above the compression middleware's 1 KiB threshold, not a multiple of 32 KiB
+		return bytesRepeat(byte('a'+r.Intn(4)), 1500+r.Intn(7000))
+	case 9:
+		if r.Chance(1, 3) {
+			return bytesRepeat('y', 33000+r.Intn(9000))
+		}
+		return r.Bytes(1024 + r.Intn(3000))
 	case 0:
 		return nil
 	case 1:
@@ -110,7 +125,7 @@ func (g *s3hGen) next() string {
 		return "op mkb b0"
 	}
 	// weights by mode
-	w := map[string]int{"put": 18, "get": 10, "head": 6, "del": 10, "cp": 7, "app": 7, "mpu": 4, "upp": 7, "cmpl": 5, "abort": 1,
+	w := map[string]int{"put": 18, "get": 10, "head": 6, "del": 10, "cp": 7, "app": 7, "mpu": 4, "upp": 7, "uppc": 4, "cmpl": 5, "abort": 1,
 		"ver": 3, "mkb": 2, "rmb": 1, "gtag": 2, "ptag": 3, "dtag": 1, "trans": 3, "ls": 2, "lsv": 3, "lsb": 1}
 	switch g.mode {
 	case "versioning":
@@ -122,7 +137,10 @@ func (g *s3hGen) next() string {
 	case "transition":
 		w["trans"], w["cp"] = 12, 10
 	}
-	names := []string{"put", "get", "head", "del", "cp", "app", "mpu", "upp", "cmpl", "abort", "ver", "mkb", "rmb", "gtag", "ptag", "dtag", "trans", "ls", "lsv", "lsb"}
+	if !g.withPartCopy {
+		w["uppc"] = 0
+	}
+	names := []string{"put", "get", "head", "del", "cp", "app", "mpu", "upp", "uppc", "cmpl", "abort", "ver", "mkb", "rmb", "gtag", "ptag", "dtag", "trans", "ls", "lsv", "lsb"}
 	tot := 0
 	for _, n := range names {
 		tot += w[n]
@@ -180,7 +198,7 @@ func (g *s3hGen) next() string {
 	case "mpu":
 		g.mpus = append(g.mpus, s3hUp{b: b, k: k})
 		return fmt.Sprintf("op mpu %s %s %s", b, k, genOpts(r).line())
-	case "upp", "cmpl", "abort":
+	case "upp", "uppc", "cmpl", "abort":
 		if len(g.mpus) == 0 {
 			g.mpus = append(g.mpus, s3hUp{b: b, k: k})
 			return fmt.Sprintf("op mpu %s %s %s", b, k, genOpts(r).line())
@@ -200,6 +218,25 @@ func (g *s3hGen) next() string {
 			uk = g.key() // wrong key for this upload id
 		}
 		switch name {
+		case "uppc":
+			// server-side part copy: whole source, a head, an inner slice, or a TAIL that ends at the
+			// source's end while starting inside it (the wholly-covered-part shortcut must not fire)
+			n := len(u.parts) + 1
+			u.parts = append(u.parts, n)
+			sb, sk := g.bk(), g.key()
+			rng := "~"
+			if sz, ok := g.c.lastSize[sb+"/"+sk]; ok && sz >= 2 && r.Chance(3, 4) {
+				switch r.Intn(3) {
+				case 0:
+					rng = fmt.Sprintf("%d-%d", 1+r.Intn(int(sz-1)), sz) // tail
+				case 1:
+					rng = fmt.Sprintf("0-%d", 1+r.Intn(int(sz-1))) // head
+				default:
+					a := r.Intn(int(sz - 1))
+					rng = fmt.Sprintf("%d-%d", a, a+1+r.Intn(int(sz)-a-1+1))
+				}
+			}
+			return fmt.Sprintf("op uppc %s %s %s %s %d %d range=%s", sb, sk, ub, uk, i, n, rng)
 		case "upp":
 			n := len(u.parts) + 1
 			if r.Chance(1, 6) && len(u.parts) > 0 {
@@ -308,6 +345,15 @@ func s3hDirected() [][]string {
 		{ // delete marker then append in a suspended bucket
 			"op mkb b0", "op ver b0 E", "op put b0 k0 " + h("v") + " ct=~ md=~ tags=~ cls=~ inm=0 im=~", "op del b0 k0 vid=~ im=~", "op ver b0 S",
 			"op app b0 k0 " + h("new") + " off=0", "op lsv b0", "op get b0 k0 vid=~", "op get b0 k0 vid=null",
+		},
+		{ // C13/C12: a null version lies UNDER the current ULID version of a suspended bucket; then append
+			"op mkb b0", "op put b0 k0 " + h("null-0") + " ct=~ md=~ tags=~ cls=~ inm=0 im=~", "op ver b0 E",
+			"op put b0 k0 " + h("V") + " ct=~ md=~ tags=~ cls=~ inm=0 im=~", "op get b0 k0 vid=v0", "op ver b0 S",
+			"op app b0 k0 " + h("+tail") + " off=~", "op get b0 k0 vid=v0", "op get b0 k0 vid=null", "op get b0 k0 vid=~", "op lsv b0",
+		},
+		{ // C13: the null version of an ENABLED bucket must not be rewritten by an append
+			"op mkb b0", "op put b0 k0 " + h("null-0") + " ct=~ md=~ tags=~ cls=~ inm=0 im=~", "op ver b0 E", "op get b0 k0 vid=null",
+			"op app b0 k0 " + h("+tail") + " off=~", "op get b0 k0 vid=null", "op get b0 k0 vid=~", "op lsv b0",
 		},
 		{ // bucket deletion: only when no objects, versions, or pending uploads
 			"op mkb b0", "op mpu b0 k0 ct=~ md=~ tags=~ cls=~", "op rmb b0", "op abort b0 k0 0", "op rmb b0", "op lsb",
